@@ -17,7 +17,7 @@ PROPS = {
         "trust": ["model: Ops.add is a hand-written zipper model of Subtitles.Add, tied to the code by the ops.add correspondence stream"],
         "assumptions": ["cue boundaries and d far below 2^62 ns (no int64 overflow)"],
     },
-    "_C14": {
+    "C14": {
         "level_text": "Machine-checked Lean theorems over a literal model of Subtitles.ForceDuration for every ordered timeline, every d >= 1 ms and both filler values; tied to /repo by the ops.forceduration correspondence stream.",
         "level_note": "Trusted: Lean kernel; the hand-written model and its tie; int64 overflow excluded by range.",
         "technique": "Lean 4 proof (induction over the timeline) + differential correspondence model vs. implementation",
@@ -28,5 +28,43 @@ PROPS = {
     },
 }
 
+
+PROPS["C10"] = {
+    "level_text": "Machine-checked Lean theorems over the model of Subtitles.Fragment (inner cutting loop + Order) for every cue list and every f > 0: the pieces of each cue are consecutive, carry its content, are cut at every multiple of f strictly inside it and nowhere else, the original pointer is the last piece; the result is a permutation of all pieces, ordered by start, and no cue strictly contains a multiple of f; cues without a multiple inside are untouched. Tied to /repo by the ops.fragment stream (exhaustive grids of the property, both append aliasing regimes, random ms-granular lists).",
+    "level_note": "Trusted: Lean kernel; hand-written model Ops.cut/Ops.fragment and its tie; sort.SliceStable modelled as List.mergeSort (any stable sort gives the same list); int64 overflow excluded by range. The pinned tree violated the property (D19), repaired by a fix: commit.",
+    "technique": "Lean 4 proof (loop invariant of the cutting loop with fuel, chain covering argument, permutation/sortedness of mergeSort) + differential correspondence",
+    "props": ["Astisub.Props.C10"],
+    "streams": [{"name": "ops.fragment"}],
+    "trust": ["model: Ops.cut / Ops.fragment mirror the repaired Subtitles.Fragment, tied by the ops.fragment stream"],
+    "assumptions": ["cue boundaries and f far below 2^62 ns"],
+}
+PROPS["C11"] = {
+    "level_text": "Machine-checked Lean theorems over a loop-faithful model of Subtitles.Unfragment (order, outer i loop, inner j loop with merge-and-delete and early break) for every cue list: afterwards no two same-text cues touch, the set of texts on screen at every instant is unchanged, the result is an ordered sub-sequence of the ordered input in which kept cues have the same identity/start/content and a not-earlier end, and lists without mergeable pairs are untouched. The inverse law (unfragment after fragment) is validated by the ops.fragunfrag correspondence stream with the specification predicate, not proved.",
+    "level_note": "Trusted: Lean kernel; hand-written model and its tie. Partial: the inverse law and the connected-components characterisation are checked by correspondence + executable predicate only.",
+    "technique": "Lean 4 proof (strong induction over the outer loop, invariants of the inner loop: extension, sub-sequence, separation, display equivalence) + differential correspondence",
+    "props": ["Astisub.Props.C11"],
+    "streams": [{"name": "ops.unfragment"}, {"name": "ops.fragunfrag"}],
+    "trust": ["model: Ops.absorb / Ops.unfragLoop mirror the loops of Subtitles.Unfragment; Item.String modelled as lines joined by ' - ', runs by ''"],
+    "assumptions": ["cue boundaries far below 2^62 ns"],
+}
+PROPS["C12"] = {
+    "level_text": "Machine-checked Lean theorems: Order is a permutation, sorted by start and stable (every already-sorted sub-sequence survives in order); Merge leaves in A exactly the cues of A and B, ordered, A ahead of B on equal starts, relative order inside A and inside B kept; the region/style maps after Merge satisfy lookup id = lookup_A id <|> lookup_B id and A's definitions are never replaced. Tied to /repo by the ops.order and ops.merge streams (many ties, receivers with nil maps, arbitrary identifier overlap; B is observed unchanged).",
+    "level_note": "Trusted: Lean kernel; sort.SliceStable modelled as List.mergeSort; Go maps as association lists; the tie. The nil-map receiver panic of the pinned tree (D20) is repaired by a fix: commit.",
+    "technique": "Lean 4 proof (core mergeSort lemmas: perm, pairwise, stability; induction over the argument's map) + differential correspondence",
+    "props": ["Astisub.Props.C12"],
+    "streams": [{"name": "ops.order"}, {"name": "ops.merge"}],
+    "trust": ["model: Ops.order = List.mergeSort on start; Graph.mergeDefs mirrors the two range loops of Subtitles.Merge"],
+    "assumptions": ["B's map keys equal its definitions' identifiers (IdKeyed) for the lookup law"],
+}
+PROPS["C13"] = {
+    "level_text": "Machine-checked Lean theorems over a loop-faithful model of Optimize/removeUnusedRegionsAndStyles (marking loops incl. the visited-set early exit of the inheritance walk): for every reference graph in which one identifier names one definition, the result equals the declarative reachability specification (exactly the reachable styles and the referenced regions are kept, cues untouched), every remaining reference resolves, the operation is idempotent and the empty list is left alone; RemoveStyling leaves no region, style or reference. Tied to /repo by ops.optimize / ops.removestyling on random pointer graphs (depth 0..4, shared parents, unused/shared definitions, dangling refs, cycles).",
+    "level_note": "Trusted: Lean kernel; pointer graphs modelled as identifier chains; the tie. Partial: the write->read clause of the property is exercised by the codec checks (C01-C05) and the conversion stream, not proved here. The pinned tree violated the property (D21: parents of used styles deleted), repaired by a fix: commit.",
+    "technique": "Lean 4 proof (closure invariant of the early-exit marking loop under identifier consistency, fold characterisations) + differential correspondence",
+    "props": ["Astisub.Props.C13"],
+    "streams": [{"name": "ops.optimize"}, {"name": "ops.removestyling"}],
+    "trust": ["model: Graph.optimize mirrors removeUnusedRegionsAndStyles with references as identifier chains"],
+    "assumptions": ["one identifier names one definition (Consistent) for the exactness theorem; other graphs are only compared model-vs-code"],
+}
+
 NOT_APPLICABLE = {p: "not built yet in this session (work in progress; see DESIGN.md section 11 for the build order)" for p in
-                  ["C01","C02","C03","C04","C05","C06","C07","C08","C10","C11","C12","C13","C14","C15","C16","C17","C18","C19","C20"]}
+                  ["C01","C02","C03","C04","C05","C06","C07","C08","C15","C16","C17","C18","C19","C20"]}
